@@ -154,11 +154,11 @@ META.update({
         "text": "Proof: every URI the model accepts has a non-empty host, port 0..65535, UDP for stun / TCP for stuns, the "
                 "?transport= value or the scheme default for turn/turns (parseProto_spec); DialURI's switch is modelled "
                 "as a decision table: exact transport for the six producible pairs and never plaintext for secure "
-                "schemes over all 5x3 hand-made values. Round trip: proved (roundtrip_regname) for every URI with a "
-                "non-empty registered-name / IPv4 host, any port 0..65535, all schemes and transports; the general "
-                "statement is false for one recorded host shape (F8, refuted in Lean); bracketed / zone / escaped "
-                "hosts are decided by the implementation-side predicate on exhaustive + grammar inputs. DialURI is "
-                "observed through an injected recording network.",
+                "schemes over all 5x3 hand-made values. Round trip: proved (roundtrip_accepted) for every URI the parser "
+                "returns on any input, all host forms incl. bracketed IPv6 / zones, with the single exclusion of the "
+                "F8 host shape (no ':' and a leading '/'), for which the statement is false (refuted in Lean, known "
+                "finding); the implementation-side predicate checks the same on exhaustive + grammar inputs. DialURI "
+                "is observed through an injected recording network.",
         "note": PROOF_NOTE + "DTLS with a host NAME cannot be exercised offline (DialURI resolves it first). tls/dtls "
                 "libraries are not modelled beyond being invoked.",
         "technique": "Lean 4 theorems over the parser model + decision table + predicate-checked correspondence",
